@@ -24,7 +24,7 @@ var kf *known.File
 
 func TestMain(m *testing.M) {
 	kf, _ = known.Load(ev.KnownFile())
-	rec.Rule("(requirement, list of 0-8 distinct version records) for NPM, Maven, PyPI: requirements are ranges (random, and written with the list's own versions), tags, exact strings or unparsable text; tag lists may hold another tag containing the tag's text before it; a sixth of the npm cases put latest on a prerelease and ask for a window of prereleases around it; records are valid, prerelease, tagged and (NPM) unparsable versions; every permutation of the list up to 6 elements, 24 sampled permutations beyond; oracle = harness model (exactly the satisfying versions, ascending by the documented order with npm's latest rule, identical for every permutation) observed at resolve.SortVersions, resolve.MatchRequirement and LocalClient.MatchingVersions. One evaluation = one (requirement, list, permutation). Non-trivial: >= 3 versions, >= 1 match and >= 1 non-match, and a tag, prerelease or unparsable entry present. Distinct = distinct (system, requirement, list).")
+	rec.Rule("(requirement, list of 0-8 distinct version records) for NPM, Maven, PyPI: requirements are ranges (random, and written with the list's own versions), tags, exact strings or unparsable text; tag lists may hold another tag containing the tag's text before it; a sixth of the npm cases put latest on a prerelease and ask for a window of prereleases around it; records are valid, prerelease, tagged and (NPM) unparsable versions; every permutation of the list up to 6 elements, 24 sampled permutations beyond; oracle = harness model (exactly the satisfying versions, ascending by the documented order with npm's latest rule, identical for every permutation) observed at resolve.SortVersions, resolve.MatchRequirement and LocalClient.MatchingVersions. One evaluation = one (requirement, list, permutation). Non-trivial: >= 3 versions, >= 1 match and >= 1 non-match, and a tag, prerelease or unparsable entry present. Distinct = distinct (system, requirement, list). A quarter of the PyPI lists also hold legacy strings that are not versions (range requirements only: the matches are asserted, the listing is not); the client clause re-adds two records before asking.")
 	rec.Assume("per-version Constraint.Match is taken as given (C03 owns it); a quarter of the PyPI lists also hold legacy strings that are not PEP 440 versions, with range requirements only: they satisfy no range, the listing as a whole is then not asserted (the order of an unparsable non-NPM string is not defined), the matches are")
 	ev.Main(m, rec)
 }
